@@ -145,6 +145,9 @@ def make_sources(rng, base: Path, n: int):
         (base / f"inc_{i}").write_text(f"// comment of the include file\nfromInclude  {i}; // trailing comment in the include\n"
                                        f"scopeA {{ incInScope {i}; sub {{ incLeaf {i}; }} }}\n/* block comment of the include */\n")
         (base / f"parsed.src{i}").write_text("preExisting  1;\nscopeA { old 2; }\n")   # matters for --mode a
+    # sources whose names carry the prefix already (the derived target is the source itself: parsed onto itself, as the API does)
+    (base / "parsed.again").write_text("#include 'inc_0'\nk  2;\nm  \"$k + 1\"; // trailing\nscopeA { own 1; }\n")
+    (base / "parsed.j.json").write_text('{"k": 2, "m": "$k + 1", "scopeA": {"own": 1}}')
     (base / "umbrella").write_text("#include 'inc_0'\n")        # nothing of its own: with -I the parsed result is empty
     (base / "parsed.umbrella").write_text("preExisting  1;\n")
 
@@ -430,8 +433,15 @@ def run(ctx):
              (dict(base0, I=True, append=True), "umbrella", ctx.seed + 2004), (dict(base0, I=True, C=True, out="foam"), "umbrella", ctx.seed + 2005)]
     with ThreadPoolExecutor(max_workers=16) as ex:
         eresults = list(ex.map(e2e_case, ejobs))
-    jobs = jobs + sjobs + ejobs
-    results = results + sresults + eresults
+    # sources that carry the prefix already
+    pjobs = [(dict(base0), "parsed.again", ctx.seed + 3000), (dict(base0, C=True, order=True), "parsed.again", ctx.seed + 3001),
+             (dict(base0, append=True, verb="-q"), "parsed.again", ctx.seed + 3002), (dict(base0, out="json"), "parsed.j.json", ctx.seed + 3003),
+             (dict(base0, out="json"), "parsed.again", ctx.seed + 3004), (dict(base0, scope="scopeA"), "parsed.again", ctx.seed + 3005),
+             (dict(base0, out="cpp", I=True), "parsed.again", ctx.seed + 3006)]
+    with ThreadPoolExecutor(max_workers=16) as ex:
+        presults = list(ex.map(e2e_case, pjobs))
+    jobs = jobs + sjobs + ejobs + pjobs
+    results = results + sresults + eresults + presults
     # validate_scope: model vs implementation on scope strings
     from dictIO.cli.dict_parser import _validate_scope
 
